@@ -76,11 +76,19 @@ def check_case(case):
                 coupled += 1
         # symmetry on the live objects (keys could collide for twins)
         conf = mol.conformations[c]
+        label_count = {}
+        for g in conf.groups:
+            if g.titratable:
+                label_count[g.label] = label_count.get(g.label, 0) + 1
         for g in conf.groups:
             for o in g.non_covalently_coupled_groups:
                 if not any(x is g for x in o.non_covalently_coupled_groups):
+                    # two titratable groups sharing a label (insertion-code twins) are one group to the bookkeeping of
+                    # couple_non_covalently: open finding F5
+                    shared = label_count.get(g.label, 0) > 1 or label_count.get(o.label, 0) > 1
                     v.append({"clause": "coupling-symmetric", "detail": "%s lists %s but not vice versa [%s]" % (
-                        g.label, o.label, c)})
+                        g.label, o.label, c), "sig": "icode-twin" if shared and common.twin_atoms(pdbio.parse(text))
+                        else None})
             s = g.get_determinant_string()
             first = s.split("\n")[0]
             star = len(first) > 16 and first[16] == "*"
